@@ -220,11 +220,30 @@ def ite_simplify(e, known_true=frozenset(), known_false=frozenset()):
     """resolve nested if-then-else nodes whose condition is already decided by an enclosing one"""
     if not isinstance(e, sp.Basic) or not e.args:
         return e
+
+    def decided(c):
+        if c is sp.true:
+            return True
+        if c is sp.false:
+            return False
+        if c in known_true or sp.Not(c) in known_false or (isinstance(c, sp.And) and all(x in known_true for x in c.args)):
+            return True
+        if c in known_false or sp.Not(c) in known_true or (isinstance(c, sp.And) and any(x in known_false or sp.Not(x) in known_true for x in c.args)):
+            return False
+        return None
+
     if isinstance(e, Ite):
         c, a, b = e.args
-        if c in known_true or sp.Not(c) in known_false or (isinstance(c, sp.And) and all(x in known_true for x in c.args)):
+        d = decided(c)
+        if d is None and c.has(Ite):
+            # a condition that itself contains decided choices (e.g. a negated 0/1 mask): resolve those, then look again
+            c2 = ite_simplify(c, known_true, known_false)
+            d = decided(c2)
+            if d is None:
+                c = c2
+        if d is True:
             return ite_simplify(a, known_true, known_false)
-        if c in known_false or sp.Not(c) in known_true or (isinstance(c, sp.And) and any(x in known_false or sp.Not(x) in known_true for x in c.args)):
+        if d is False:
             return ite_simplify(b, known_true, known_false)
         return Ite(c, ite_simplify(a, known_true | {c}, known_false), ite_simplify(b, known_true, known_false | {c}))
     if not e.has(Ite):
